@@ -64,7 +64,7 @@ func buildWorkload(k *mon.Case, dir string) (*Workload, int, []string, bool) {
 	fam := []string{node.FamRegtest, node.FamVarWork}[r.Intn(2)]
 	g := chaingen.New(node.NewParams(fam), fam, r)
 	g.MaxTx = 4
-	cfg := WConfig{UtxoCache: []uint64{0, 4096, 1 << 30}[r.Intn(3)], MaxBlockFileSize: []uint32{0, 2048, 16384}[r.Intn(3)],
+	cfg := WConfig{UtxoCache: []uint64{0, 4096, 1 << 25}[r.Intn(3)], MaxBlockFileSize: []uint32{0, 2048, 16384}[r.Intn(3)],
 		LdbCacheBytes: []uint64{0, math.MaxUint64}[r.Intn(2)], FlushSecs: []uint32{0, math.MaxUint32}[r.Intn(2)]}
 	var kinds []string
 	events := 0
